@@ -464,7 +464,46 @@ pub struct Weights {
 
 pub const GENERAL: Weights = Weights { print: 30, c0: 8, cursor: 14, edit: 8, scroll: 8, rep: 2, margins: 4, modes: 5, alt: 3, save: 3, charset: 2, sgr: 4, tabs: 3, decstr: 1, ris: 1, inert: 2 };
 
+/// Now and then stretch a CSI sequence to 31..34 parameters (separators and one more number before
+/// the final byte): the fixed-size parameter array saturates at 32, and what lands where decides
+/// which function - with which arguments - is executed.
+fn stretch_params(r: &mut Rng, t: String) -> String {
+    let cs: Vec<char> = t.chars().collect();
+    let start = if cs.len() >= 3 && cs[0] == '\x1b' && cs[1] == '[' {
+        2
+    } else if cs.len() >= 2 && cs[0] == '\u{9b}' {
+        1
+    } else {
+        return t;
+    };
+    let fin = cs.len() - 1;
+    if !(('@'..='~').contains(&cs[fin])) || !cs[start..fin].iter().all(|c| c.is_ascii_digit() || *c == ';' || *c == '?') {
+        return t;
+    }
+    let have = cs[start..fin].iter().filter(|c| **c == ';').count();
+    let want = *r.pick(&[30usize, 31, 32, 33, 34]);
+    if have >= want {
+        return t;
+    }
+    let mut out: String = cs[..fin].iter().collect();
+    for _ in have..want {
+        out.push(';');
+    }
+    out.push_str(&format!("{}", r.n(30)));
+    out.push(cs[fin]);
+    out
+}
+
 pub fn token(r: &mut Rng, w: &Weights, cols: usize, rows: usize) -> String {
+    let t = token_inner(r, w, cols, rows);
+    if r.chance(1, 40) {
+        stretch_params(r, t)
+    } else {
+        t
+    }
+}
+
+fn token_inner(r: &mut Rng, w: &Weights, cols: usize, rows: usize) -> String {
     let total = w.print + w.c0 + w.cursor + w.edit + w.scroll + w.rep + w.margins + w.modes + w.alt + w.save + w.charset + w.sgr + w.tabs + w.decstr + w.ris + w.inert;
     let mut k = r.n(total as u64) as u32;
     macro_rules! take {
